@@ -4,22 +4,28 @@ import base64
 import os
 import re
 import time
+import zlib
 
 import vlib
 
 LEVEL = "exploration"
 HERE = os.path.dirname(os.path.abspath(__file__))
 SRC = os.path.join(HERE, "harness.cpp")
+# CALL-TIME harness: four translation units, linked in this order (the third is the only one that includes xtl/xbase64.hpp)
+CT_SRCS = [os.path.join(HERE, f) for f in ("calltime_main.cpp", "calltime_before.cpp", "calltime_codec.cpp", "calltime_after.cpp")]
 ASAN_ENV = {"ASAN_OPTIONS": vlib.ASAN_ENV + ":max_allocation_size_mb=256"}
 
 
-TAGS = {"san": "c13", "fast": "c13-fast", "uchar": "c13-uchar"}
+TAGS = {"san": "c13", "fast": "c13-fast", "uchar": "c13-uchar", "ct": "c13-ct"}
 
 
 def build(kind="san"):
     # _GLIBCXX_ASSERTIONS + -fsanitize=bounds: the property itself is about indexing (DESIGN.md section 2)
+    if kind == "ct":
+        # g++ links the objects in command-line order = the order of CT_SRCS; same flags as the main sanitizer build
+        return vlib.compile_cxx(CT_SRCS[0], "c13ct", std="c++14", opt="-O2", san="asan", defines=["_GLIBCXX_ASSERTIONS"], extra_srcs=CT_SRCS[1:])
     if kind == "fast":
-        # same source, no sanitizers: only for the two 2^32 families of the thorough tier
+        # same source, no sanitizers: for the two 2^32 families of the thorough tier and the power-of-two windows above 2^21 (quick) / 2^23 (thorough)
         return vlib.compile_cxx(SRC, "c13fast", std="c++14", opt="-O2", san="none", defines=["_GLIBCXX_ASSERTIONS"])
     if kind == "uchar":
         # CONFIGURATION: plain char unsigned (as on ARM/PowerPC Linux), all sanitizers on
@@ -55,6 +61,54 @@ def sweep_plan(kind, lmax, n, sample_shard):
     return out
 
 
+WIN = 37        # lengths per power-of-two window: 2^k-4 .. 2^k+32 (harness.cpp: WIN_BELOW, WIN_ABOVE)
+
+
+def pow2_enc_jobs(kind, contents, klo, khi, unit_k):
+    """enc pow2:<c>:klo:khi, cut into index ranges of about 37 * 2^unit_k input bytes each (one harness process per range), largest lengths first"""
+    out = []
+    for c in contents:
+        fam = "pow2:%s:%d:%d" % (c, klo, khi)
+        small_hi = None
+        for k in range(khi, klo - 1, -1):
+            base = WIN * (k - klo)
+            if k > unit_k:
+                n = min(WIN, 2 ** (k - unit_k))
+                for p in range(n):
+                    out.append((kind, [("--job", "enc", fam, str(base + WIN * p // n), str(base + WIN * (p + 1) // n))], 0))
+            else:
+                small_hi = base + WIN
+                break
+        if small_hi:
+            out.append((kind, [("--job", "enc", fam, "0", str(small_hi))], 0))
+    return out
+
+
+def pow2_dec_jobs(kind, klo, khi, per_k):
+    """dec pow2dec: the complete product content x terminator x padded/unpadded over the windows klo..khi; one process per (content, padding[, k])"""
+    out = []
+    for c in "cf":
+        for pu in "pu":
+            ks = [(k, k) for k in range(khi, klo - 1, -1)] if per_k else [(klo, khi)]
+            for a, b in ks:
+                out.append((kind, [("--job", "dec", "pow2dec:%s:%s:%s:%d:%d" % (c, t, pu, a, b), "0", "1000000") for t in TERMS if not (pu == "u" and t == "pad")], 0))
+    return out
+
+
+def pow2_plan(tier):
+    """POWER-OF-TWO WINDOWS (lengths 2^k-4 .. 2^k+32).  Below the stated k the windows lie inside the complete length sweep."""
+    if tier == "thorough":
+        return (pow2_enc_jobs("fast", "cf", 24, 26, 23) + pow2_enc_jobs("san", "cf", 17, 23, 21) + pow2_dec_jobs("san", 17, 22, True))
+    return pow2_enc_jobs("fast", "c", 22, 24, 22) + pow2_enc_jobs("san", "cf", 15, 21, 20) + pow2_dec_jobs("san", 15, 17, False)
+
+
+def calltime_plan(tier):
+    """CALL TIME: (input set, mask list, number of shards)"""
+    if tier == "thorough":
+        return [("wide", "le2", 16), ("small", "all", 16)]
+    return [("small", "le2", 2)]
+
+
 def shards(mode, family, count, n):
     """n contiguous index ranges covering [0,count)"""
     out = []
@@ -74,6 +128,8 @@ def plan(tier):
     Inside one process the families are ordered shortest first, so the first report of a signature is a short input."""
     thorough = tier == "thorough"
     P = []
+    # ---- POWER-OF-TWO WINDOWS first: they are the longest single jobs -------------------------------------------------------------------
+    P += pow2_plan(tier)
     # ---- encode + round trip --------------------------------------------------------------------------------------
     P.append(("san", small("enc", [("full:0", 1), ("full:1", 256), ("full:2", 256 ** 2)]), 1))
     enc_b = [("enc6:5", 6 ** 5), ("long", 58 * 36 + 256), ("enc6:6", 6 ** 6)]
@@ -127,6 +183,58 @@ def py_spec_decode(t):
     return out
 
 
+def py_sweep_content(c, n):
+    """the two length-sweep contents, written a second time"""
+    if c == "c":
+        return (bytes(range(256)) * (n // 256 + 1))[:n]
+    return bytes([0xFF if n % 2 == 0 else 0x80]) * n
+
+
+def pow2_len(family, idx):
+    """plain length of case idx of a pow2 / pow2dec family"""
+    f = family.split(":")
+    dec = f[0] == "pow2dec"
+    klo, khi = int(f[-2]), int(f[-1])
+    lens = [L for k in range(klo, khi + 1) for L in range(2 ** k - 4, 2 ** k + 33) if not (dec and f[3] == "u" and L % 3 == 0)]
+    return lens[idx]
+
+
+def py_pow2_input(family, idx):
+    """input string of case idx of a pow2 / pow2dec family, built without the harness"""
+    f = family.split(":")
+    dec = f[0] == "pow2dec"
+    plain = py_sweep_content(f[1], pow2_len(family, idx))
+    if not dec:
+        return plain
+    e = base64.b64encode(plain)
+    if f[3] == "u":
+        e = e.rstrip(b"=")
+    return e + {"none": b"", "pad": b"=", "nl": b"\n", "high": b"\x80", "dash": b"-"}[f[2]]
+
+
+def reference_selfcheck_long(ctx, binary, tier):
+    """the reference on LONG strings (power-of-two windows): lengths and CRC-32 of its answers against python's base64 on inputs python builds itself"""
+    kq = 26 if tier == "thorough" else 24
+    kd = 22 if tier == "thorough" else 17
+    want = [("enc", "pow2:c:24:24", 4), ("enc", "pow2:c:24:24", 13), ("enc", "pow2:f:24:24", 15), ("enc", "pow2:c:%d:%d" % (kq, kq), 36),
+            ("dec", "pow2dec:c:high:u:%d:%d" % (kd, kd), 3), ("dec", "pow2dec:f:nl:p:%d:%d" % (kd, kd), 36), ("dec", "pow2dec:c:none:p:20:20", 6)]
+    args = []
+    for m, f, i in want:
+        args += ["--refdigest", m, f, str(i), str(i + 1)]
+    recs = [r for r in ctx.run_harness(binary, args, tag="c13-fast") if r.get("t") == "refd"]
+    if len(recs) != len(want):
+        raise vlib.HarnessError("reference self-check (long strings): %d of %d records" % (len(recs), len(want)))
+    for (m, f, i), r in zip(want, recs):
+        inp = py_pow2_input(f, i)
+        out = base64.b64encode(inp) if m == "enc" else py_spec_decode(inp)
+        got = (r["in"], r["icrc"], r["on"], r["ocrc"])
+        exp = (len(inp), zlib.crc32(inp) & 0xFFFFFFFF, len(out), zlib.crc32(out) & 0xFFFFFFFF)
+        if got != exp:
+            raise vlib.HarnessError("reference self-check failed on the long string %s %s #%d: harness (len, crc32) of input/answer %r, python says %r" % (m, f, i, got, exp))
+    ctx.note("reference self-check, long strings: refs/C13_rfc4648.hpp and the input generator agreed with python (own generator + base64 module; lengths and CRC-32) on %d strings of "
+             "%d..%d bytes from the power-of-two windows" % (len(want), min(r["in"] for r in recs), max(r["in"] for r in recs)))
+
+
 def reference_selfcheck(ctx, binary):
     """The oracle is only as good as refs/C13_rfc4648.hpp: compare it with python's base64 on every string of length <= 2,
     the long family, and (decode) every dec13 string of length <= 4 and the heap family.  A disagreement is a harness error."""
@@ -165,11 +273,11 @@ def reference_selfcheck(ctx, binary):
 def run(ctx):
     thorough = ctx.tier == "thorough"
     bins = {}
-    kinds = ["san", "uchar"] + (["fast"] if thorough else [])
+    kinds = ["san", "uchar", "fast", "ct"]
     for k, b in zip(kinds, vlib.parallel([(lambda k=k: build(k)) for k in kinds])):
         bins[k] = b
-    reference_selfcheck(ctx, bins["san"])
-    budget_end = time.time() + min(ctx.time_left() - 45, 1700 if thorough else 300)
+    vlib.parallel([lambda: reference_selfcheck(ctx, bins["san"]), lambda: reference_selfcheck_long(ctx, bins["fast"], ctx.tier)])
+    budget_end = time.time() + min(ctx.time_left() - 45, 2400 if thorough else 300)
 
     def job(kind, jobs, sampled):
         def f():
@@ -189,20 +297,38 @@ def run(ctx):
                 ctx.stat("cases_in_unsigned_char_build", n)
             if jobs and jobs[0][2].startswith("sweep"):
                 ctx.stat("length_sweep_cases", n)
+            if jobs and jobs[0][2].startswith("pow2"):
+                ctx.stat("pow2_window_cases", n)
+                if kind == "fast":
+                    ctx.stat("pow2_window_cases_in_build_without_sanitizers", n)
         return f
 
-    vlib.parallel([job(k, j, s) for k, j, s in plan(ctx.tier)], workers=min(vlib.NCPU, 16))
+    def ctjob(setname, masks, i, n):
+        def f():
+            if budget_end - time.time() < 20:
+                ctx.cap("not started before the deadline: calltime %s %s shard %d/%d" % (setname, masks, i, n))
+                return
+            ctx.run_harness(bins["ct"], ["--calltime", setname, masks, "--shard", str(i), str(n)], tag=TAGS["ct"], env=ASAN_ENV, timeout=budget_end - time.time() + 300)
+        return f
+
+    todo = [job(k, j, s) for k, j, s in plan(ctx.tier)]
+    npow2 = len(pow2_plan(ctx.tier))
+    ct = [ctjob(sn, ml, i, n) for sn, ml, n in calltime_plan(ctx.tier) for i in range(n)]
+    vlib.parallel(todo[:npow2] + ct + todo[npow2:], workers=min(vlib.NCPU, 16))
 
     # the driver keeps the first violation per signature: make that the one with the shortest input (then the smallest)
     def size_key(v):
         a = v["args"]
         if len(a) < 5:
             return 0
+        if a[2].startswith("pow2"):
+            return 100 + pow2_len(a[2], int(a[3]))
         return (len(a[2]) - 5) // 2 if a[2].startswith("lit:x") else 100 + int(a[3])     # sweep cases: index ~ length, always > 64 bytes
     ctx.viols.sort(key=lambda v: (v["sig"], size_key(v), v["args"]))
     if ctx.stats.get("not_executed_after_crash", 0):
         ctx.cap("%d cases were NOT executed: in each harness process, after 2 inputs of one input class (e.g. 'first non-alphabet byte is >= 0x80') had killed the child, "
-                "the remaining inputs of that class were skipped (see the crash violations); the run is therefore not exhaustive" % ctx.stats["not_executed_after_crash"])
+                "the remaining inputs of that class were skipped, and a call-time process that died inside a library call did not run its remaining cases "
+                "(see the crash violations); the run is therefore not exhaustive" % ctx.stats["not_executed_after_crash"])
     t = thorough
     ctx.rule = (
         "Each case is one input string pushed through the real xtl code in a forked child. "
@@ -217,12 +343,25 @@ def run(ctx):
         "- the complete length x content x terminator x padding product. Sweep strings of at most 256 plain bytes can coincide with a short-string case and are executed but not counted in distinct_nontrivial. "
         "CONFIGURATION: the harness is built a second time with -funsigned-char and, in that build, runs all strings of length 0..%s over all 256 bytes (decode, and 0..2 encode), the 13-byte-alphabet "
         "family of length %s, the 16..19-character-prefix family and the same sweep product for L in 0..3000; a case is (configuration, operation, input). "
+        "POWER-OF-TWO WINDOWS: the same two contents at every length 2^k-4 .. 2^k+32 (37 consecutive lengths: every residue mod 3 and mod 12 on both sides of the power) for every k in %s: "
+        "encode + RFC comparison (exact length, padding, content) + round trip, k <= %d with both contents under AddressSanitizer, k = %s %s in a build without sanitizers (_GLIBCXX_ASSERTIONS kept); "
+        "and for k in %s the decode product (reference encoding x 5 terminators x padded / '=' removed) under AddressSanitizer; smaller powers of two lie inside the complete length sweep. "
+        "CALL TIME: a four-translation-unit program (only one TU includes xbase64.hpp; one TU is linked before it, one after it) calls the library at 11 moments of a process' life: "
+        "static initialisers (TU linked before / same TU above the #include / below it / TU linked after), main(), an atexit handler registered in main(), the four static destructors, and an atexit handler "
+        "registered by the first initialiser (after all static destructors). A process is a SUBSET of those moments (the library is untouched at the others, so each moment is met as the first call "
+        "of the process and after earlier calls): %s; at every selected moment the whole input set runs (%s). "
+        "A case there is (subset, moment, operation, input). "
         "The families are disjoint by length/content, so every case is distinct by construction; index = the string as a number in base |alphabet| (sweep: the length). "
         "distinct_nontrivial counts, as measured by the harness, the encode cases whose input contains a NUL or a byte >= 0x80 plus the decode cases whose input is NOT the canonical "
         "RFC 4648 encoding of any byte string (dirty, truncated, wrongly padded or non-zero trailing bits); the dec[...] / enc[...] counters break the cases down by "
         "first-stop class x run length mod 4 and by length mod 3 x content."
         % ("4" if t else "3", "5..8" if t else "4..6", "4" if t else "3", "5..8" if t else "4..6", "4" if t else "3",
-           70000 if t else 20000, "3" if t else "2", "4..7" if t else "4..6"))
+           70000 if t else 20000, "3" if t else "2", "4..7" if t else "4..6",
+           "17..26" if t else "15..24", 23 if t else 21, "24..26" if t else "22..24", "with both contents" if t else "with the counting content", "17..22" if t else "15..17",
+           "all 2048 subsets with the small input set and every subset of at most two moments plus the full set (68) with the wide input set" if t else "every subset of at most two moments plus the full set (68 processes)",
+           "small set: encode all strings of length 0..1 over all 256 bytes, all of length 2..3 over {00,01,7F,80,FF,'A'}, 24 heap-resident strings of 16..27 bytes; decode all strings of length 0..1 over all 256 bytes, "
+           "all of length 2..3 over the 13-byte alphabet, 16..19 valid characters + every tail of length 0..1 - 3212 cases" +
+           ("; wide set: additionally all strings of length 2 over all 256 bytes (encode and decode), encode length 4 over the 6 bytes, decode length 4 over the 13 bytes - 164141 cases" if t else "")))
     ctx.assumptions += [
         "refs/C13_rfc4648.hpp (range arithmetic, 3-byte groups, bit-by-bit spec decode; no table, no accumulator) is the reference; it is cross-checked against python's base64 module on >100000 strings in every run",
         "strings longer than %s bytes are covered only by the stated structured families (6- and 13-byte alphabets up to length %s, alternating strings up to 64, rotations of 00..FF, 16..19-character valid prefixes), not exhaustively"
@@ -230,10 +369,16 @@ def run(ctx):
         "out-of-table / out-of-input indexing is observed through _GLIBCXX_ASSERTIONS, -fsanitize=bounds and AddressSanitizer; inputs shorter than 16 bytes live inside the std::string object (small-string buffer), so an over-read of the INPUT is only observable for the heap-resident families (length >= 16)",
         "only the behaviour the statement fixes is judged: returned strings, termination, memory safety. Signed-overflow/shift UB of the int accumulators (val << 6, val << 8) is deliberately not judged (DESIGN.md section 2)",
         "plain char: signed (platform default, every family) and unsigned (-funsigned-char build, the decode families listed in the rule); other ABI differences of a real unsigned-char platform are not exercised",
-        "lengths above %d bytes are not exercised; between %s and that bound only the two sweep contents per length are" % (70000 if t else 20000, "5" if t else "4"),
+        "lengths above %d bytes are exercised only inside the power-of-two windows 2^k-4 .. 2^k+32 (k up to %d, i.e. at most %d bytes); between %s bytes and the largest window only the two sweep contents per length are; "
+        "lengths above %d bytes are not exercised" % (70000 if t else 20000, 26 if t else 24, 2 ** (26 if t else 24) + 32, "5" if t else "4", 2 ** (26 if t else 24) + 32),
+        "power-of-two windows for k >= %d run in a build of the same harness WITHOUT AddressSanitizer/UBSan (with _GLIBCXX_ASSERTIONS: std::string::operator[] and std::array::operator[] are range checked), "
+        "so an out-of-bounds access that neither trips such an assertion nor changes the returned string would go unnoticed there" % (24 if t else 22),
+        "call time: g++ 12 / GNU ld run static initialisers in link order and destructors/atexit handlers in reverse order of registration; the harness records the actual order of the 11 moments in every process and "
+        "refuses to judge (harness error) if it is not the assumed one. Dynamic libraries, threads started before main and other compilers' initialisation orders are not exercised; the call-time part runs in the "
+        "signed-char build only",
     ]
     if t:
-        ctx.assumptions.append("the two 2^32 families (all 4-byte strings, encode and decode) run in a build of the same harness WITHOUT AddressSanitizer/UBSan (still with _GLIBCXX_ASSERTIONS); every other family runs with them")
+        ctx.assumptions.append("the two 2^32 families (all 4-byte strings, encode and decode) run in a build of the same harness WITHOUT AddressSanitizer/UBSan (still with _GLIBCXX_ASSERTIONS); every other family except the largest power-of-two windows runs with them")
     ctx.stats.setdefault("evaluations", 0)
     ctx.stats.setdefault("distinct_nontrivial", 0)
 
